@@ -15,7 +15,7 @@ from .generic_value import GenericValue
 
 
 def has_star_expression(node):
-    if isinstance(node, (ast.List, ast.Tuple)):
+    if isinstance(node, (ast.List, ast.Tuple, ast.Set)):
         return any(isinstance(e, ast.Starred) for e in node.elts)
     if isinstance(node, ast.Dict):
         return any(key is None for key in node.keys)
@@ -36,6 +36,9 @@ def contains_unmanaged(value, node, *, with_node=False):
     if with_node and node is None:
         return False
     if isinstance(value, Unmanaged) or isinstance(node, ast.JoinedStr):
+        return True
+    if isinstance(node, ast.Set) and has_star_expression(node):
+        # sets have no adapter, but they can contain star-expressions
         return True
     if isinstance(node, ast.Dict) and any(
         isinstance(key, ast.JoinedStr) for key in node.keys
